@@ -445,7 +445,7 @@ func genC05(seed uint64, idx int) *Plan {
 	return &Plan{Kind: "script", Seed: seed, Script: p}
 }
 
-var c02Subs = []string{"ech-trailing", "wrong-key", "wrong-info", "wrong-id-ext", "wrong-suite-ext", "trunc-enc", "trunc-payload", "aad-not-zeroed", "unlisted-suite", "canonical-info", "outer-zeros", "bad-enc", "info-concat", "low-order-enc"}
+var c02Subs = []string{"ech-trailing", "ech-trailing-sealed", "wrong-key", "wrong-info", "wrong-id-ext", "wrong-suite-ext", "trunc-enc", "trunc-payload", "aad-not-zeroed", "unlisted-suite", "canonical-info", "outer-zeros", "bad-enc", "info-concat", "low-order-enc"}
 
 func genC02(seed uint64, idx int, tier string) *Plan {
 	r := core.NewRand(seed, "plan")
